@@ -147,7 +147,7 @@ func c01Loop(a *An, df *DecodeFacts, rule string) {
 		if ex.From == df.Loop.Header {
 			continue
 		}
-		c := a.E.rootCtx(rd)
+		c := df.loopCtx(a.E.rootCtx(rd))
 		lits := c.edgeLits(ex.From, ex.SuccIdx)
 		ok := false
 		desc := "unconditional exit"
@@ -157,7 +157,7 @@ func c01Loop(a *An, df *DecodeFacts, rule string) {
 			if l.A.Kind == AkPred && l.Neg && l.A.Callee != nil && (ro.isSendEvent(l.A.Callee) || ro.isSendError(l.A.Callee)) {
 				ok = true
 			}
-			if l.A.Kind == AkPred && !l.Neg && l.A.Callee != nil && ro.isIsClosed(l.A.Callee) {
+			if t, closed := ro.closedLit(l); t && closed {
 				ok = true
 			}
 		}
@@ -249,7 +249,7 @@ func c01Header(a *An, df *DecodeFacts, size int64) (bool, string) {
 			offOK = true
 		}
 		if c == 1 {
-			if ex, ok := stripConv(t).(*ssa.Extract); ok && ex.Index == 0 {
+			if ex, ok := df.inReader(a.E, t).(*ssa.Extract); ok && ex.Index == 0 {
 				if call, ok := ex.Tuple.(*ssa.Call); ok {
 					if cal := call.Call.StaticCallee(); cal != nil && kernelWait(cal) {
 						nOK = true
@@ -264,14 +264,28 @@ func c01Header(a *An, df *DecodeFacts, size int64) (bool, string) {
 
 // c01Send: the event send function never drops.
 func c01Send(a *An, rule string) {
+	sendFnRule(a, rule, a.Ro.SendEvent, "Events", "event", "an event bypasses the send only when its Op is 0", func(l Lit) bool {
+		return l.A.Kind == AkCmp && l.Neg && l.A.Op == "==" && l.A.K == "c:0" && strings.HasSuffix(l.A.Subj, ".Op")
+	})
+}
+
+// c10Send: the error send function never drops a non-nil error.
+func c10Send(a *An, rule string) {
+	sendFnRule(a, rule, a.Ro.SendError, "Errors", "error", "an error bypasses the send only when it is nil", func(l Lit) bool {
+		return l.A.Kind == AkNil && l.Neg && strings.HasPrefix(stripIDs(l.A.Subj), "p:")
+	})
+}
+
+// sendFnRule: a send function blocks until its value is delivered or the watcher is closed, and reports failure only then.
+func sendFnRule(a *An, rule string, fns []*ssa.Function, kind, what, skipDesc string, skipLit func(Lit) bool) {
 	ro := a.Ro
-	for _, sf := range ro.SendEvent {
+	for _, sf := range fns {
 		w := a.walk(sf)
 		var sel *Visit
 		for _, v := range w.Visits {
 			if s, ok := v.Instr.(*ssa.Select); ok && v.Ctx.Parent == nil {
 				for _, st := range s.States {
-					if st.Dir == types.SendOnly && chanKind(ro, st.Chan.Type()) == "Events" {
+					if st.Dir == types.SendOnly && chanKind(ro, st.Chan.Type()) == kind {
 						sel = v
 					}
 				}
@@ -279,7 +293,7 @@ func c01Send(a *An, rule string) {
 		}
 		name := shortFn(sf)
 		if sel == nil {
-			a.R.ob(rule, name+":select", "the event send is a select", a.P.pos(sf.Pos()), false, "no select sending on Events at the top level of "+name)
+			a.R.ob(rule, name+":select", "the "+what+" send is a select", a.P.pos(sf.Pos()), false, "no select sending on "+kind+" at the top level of "+name)
 			continue
 		}
 		s := sel.Instr.(*ssa.Select)
@@ -288,28 +302,28 @@ func c01Send(a *An, rule string) {
 			if st.Dir == types.RecvOnly && sel.Ctx.fieldOfValue(st.Chan) == ro.Done {
 				doneIdx = i
 			}
-			if st.Dir == types.SendOnly && chanKind(ro, st.Chan.Type()) == "Events" {
+			if st.Dir == types.SendOnly && chanKind(ro, st.Chan.Type()) == kind {
 				evIdx = i
 			}
 		}
 		ok := s.Blocking && len(s.States) == 2 && doneIdx >= 0 && evIdx >= 0
-		a.R.ob(rule, name+":select", "the event send blocks until delivered or closed: a select without default over exactly {<-done, Events<-e}", a.P.instrPos(s), ok,
+		a.R.ob(rule, name+":select", "the "+what+" send blocks until delivered or closed: a select without default over exactly {<-done, "+kind+"<-v} (no timeout, no default)", a.P.instrPos(s), ok,
 			sprintf("blocking=%v states=%s", s.Blocking, blockShape(sel)))
-		// the select is skipped only for Op == 0
+		// the select is skipped only for the empty value
 		guardOK, bad := sel.Cond.everyConj(func(c Conj) bool {
 			if len(c) != 1 {
 				return false
 			}
 			for _, l := range c {
-				return l.A.Kind == AkCmp && l.Neg && l.A.Op == "==" && l.A.K == "c:0" && strings.HasSuffix(l.A.Subj, ".Op")
+				return skipLit(l)
 			}
 			return false
 		})
 		w2 := "select reached under " + stripIDs(sel.Cond.String())
 		if !guardOK && bad != nil {
-			w2 = "an event can bypass the send under " + stripIDs(bad.String())
+			w2 = "a value can bypass the send under " + stripIDs(bad.String())
 		}
-		a.R.ob(rule, name+":skip-only-empty", "an event bypasses the send only when its Op is 0", a.P.instrPos(s), guardOK, w2)
+		a.R.ob(rule, name+":skip-only-empty", skipDesc, a.P.instrPos(s), guardOK, w2)
 		// `false` is returned only on the done branch
 		okFalse := true
 		var fw []string
@@ -366,7 +380,7 @@ func handlerVisits(a *An, df *DecodeFacts) (*Walker, []*Visit, *Ctx) {
 	var hctx *Ctx
 	for _, v := range w.Visits {
 		for c := v.Ctx; c != nil; c = c.Parent {
-			if c.Fn == df.Handler && c.Parent != nil && c.Parent.Parent == nil && c.Site == ssa.Instruction(df.HandlerCall) {
+			if c.Fn == df.Handler && c.Parent != nil && c.Parent.Fn == df.LoopFn && c.Parent.Depth == len(df.Chain) && c.Site == ssa.Instruction(df.HandlerCall) {
 				out = append(out, v)
 				hctx = c
 				break
